@@ -65,8 +65,10 @@ type MapObj struct {
 type MapV struct{ M *MapObj } // M == nil: nil map
 
 type ChanObj struct {
-	Queue  []Val
-	Closed bool
+	Queue   []Val
+	Closed  bool
+	Cap     int           // scheduled mode only (the sequential model treats channels as unbounded FIFOs)
+	Waiting []waitingSend // senders blocked on a full / unbuffered channel (scheduled mode)
 }
 type ChanV struct{ C *ChanObj }
 
